@@ -17,8 +17,8 @@ func init() {
 	register(&RuleSet{
 		Prop:  "C07",
 		Title: "EDI segments are tokenized exactly at unescaped delimiters",
-		Explanation: "R07a one delimiter table: every delimiter and escape argument of the five cooperating sites of package edi - the segment scanner (ios.NewScannerByDelim*), the three strs.ByteSplitWithEsc levels (ordered by data flow: the split whose input comes from the token is the element level, the split fed by it the repetition level, the split fed by both the component level) and strs.ByteUnescape - is resolved backwards (A5: through reader struct fields, constructors, composite literals and newStrPtrByte-style helpers, call-site sensitive) to the json-tagged field of FileDecl it originates from and must be exactly segment_/element_/repetition_/component_delimiter resp. release_character; the optional levels are guarded by a len()!=0 test of the same delimiter; the bytes stripped from the token end are len() of the segment delimiter, the scanner is configured to include the delimiter, and the strip is only applied to tokens known to end with it (constant scanner flags without EofAsDelim, or a dominating bytes.HasSuffix test against the segment delimiter); " +
-			"R07b unescape exactly once: no ByteUnescape on any derivation path of a value stored into RawSegElem.Data, and exactly one on every derivation path from a load of RawSegElem.Data to the data of a text node (idr.CreateNode(TextNode, …)); " +
+		Explanation: "R07a one delimiter table: every delimiter and escape argument of the five cooperating sites of package edi - the segment scanner (ios.NewScannerByDelim*), the three strs.ByteSplitWithEsc levels (ordered by data flow: the split whose input comes from the token is the element level, the split fed by it the repetition level, the split fed by both the component level) and strs.ByteUnescape - is resolved backwards (A5: through reader struct fields, constructors, composite literals and newStrPtrByte-style helpers, call-site sensitive) to the json-tagged field of FileDecl it originates from and must be exactly segment_/element_/repetition_/component_delimiter resp. release_character; the optional levels are guarded by a len()!=0 test of the same delimiter (a dominating branch in the function or at every one of its call sites; the test itself may be hoisted into a local, a field, a bool parameter or a helper of the package); the bytes stripped from the token end (followed through helpers of the package that prepare the token) are len() of the segment delimiter, the scanner is configured to include the delimiter, and the strip is only applied to tokens known to end with it (constant scanner flags without EofAsDelim, or a dominating bytes.HasSuffix test against the segment delimiter); " +
+			"R07b unescape exactly once: no ByteUnescape on any derivation path of a value stored into RawSegElem.Data (the stores are the tokenizer's output: the pieces of each of the three split levels reach RawSegElem.Data, whatever the number of stores and helpers), and exactly one on every derivation path from a load of RawSegElem.Data to the data of a text node (idr.CreateNode(TextNode, …)); " +
 			"R07f ignore_crlf: in the function that builds the segment scanner the scanner's source is followed back through ios.NewBytesReplacingReader layers: on the alternative selected by the ignore_crlf field being set both the CR and the LF byte are replaced by nothing, on the other alternative nothing is removed; " +
 			"R07c missing element: in the segment-to-node function every return with a non-nil error carries the reader's fatal type (the type asserted by IsContinuableError's predicate) and a nil node; the block reached when the element is missing, not empty_if_missing and without default ends in such a return without creating a node; text nodes not derived from raw data carry \"\" or *Elem.Default.",
 		NotDecided: "where the bytes are actually split: correctness of ByteIndexWithEsc/ByteSplitWithEsc/ByteUnescape and of the scanner's buffer growth (go-corelib, trusted), multi-byte delimiters, correctness of BytesReplacingReader itself, the other CR/LF rules (CR-only tokens skipped, CR before an LF delimiter), that `found` is computed from the right index comparison; consumers of the exported NonValidatingReader outside the repository.",
@@ -341,6 +341,7 @@ func runC07(c *core.Ctx) {
 		}
 		return out
 	}
+	var levels []*ssa.Call // the three split calls in level order, once they are known to form the chain
 	{
 		var splits []*ssa.Call
 		for _, f := range fns {
@@ -384,6 +385,7 @@ func runC07(c *core.Ctx) {
 			}
 			c.Unknown("R07a", "edi split levels", pos, fmt.Sprintf("the %d ByteSplitWithEsc calls of package edi do not form the chain element -> repetition -> component by data flow", len(splits)))
 		} else {
+			levels = splits
 			for i, s := range splits {
 				key := fmt.Sprintf("%s %s split", core.FuncKey(s.Parent()), levelName[i])
 				origin("R07a", key+" delimiter", core.InstrPos(s), s.Call.Args[1], levelWant[i])
@@ -391,20 +393,10 @@ func runC07(c *core.Ctx) {
 				if i == 0 {
 					continue
 				}
-				// optional level: guarded by len(<same delimiter>) != 0 (in the function, or at its only call site)
-				guard := ""
-				blk := s.Block()
-				for hop := 0; hop < 3 && guard == ""; hop++ {
-					guard = c07LenGuard(blk, res, r)
-					if guard != "" {
-						break
-					}
-					cs := callersIn(blk.Parent())
-					if len(cs) != 1 {
-						break
-					}
-					blk = cs[0].Block()
-				}
+				// optional level: guarded by len(<same delimiter>) != 0: in the function (the test may be hoisted into a
+				// local, a parameter or a helper of the package), or at every call site of the function
+				lt := &f1LenTests{res: res, callersIn: callersIn, into: intoEdi}
+				guard := lt.guardOf(s.Block(), 0)
 				switch {
 				case guard == "":
 					c.Bad("R07a", key+" guard", core.InstrPos(s), "optional split level is not guarded by a len(delimiter) test: an absent delimiter would split between every byte")
@@ -415,7 +407,7 @@ func runC07(c *core.Ctx) {
 				}
 			}
 			// strip of the segment delimiter on the way from the token to the element split
-			c07Strip(c, splits[0], callersIn, origin, res, eofAsDelim, flagsKnown)
+			c07Strip(c, splits[0], callersIn, intoEdi, origin, res, eofAsDelim, flagsKnown)
 		}
 	}
 
@@ -430,9 +422,9 @@ func runC07(c *core.Ctx) {
 	c.Floor("R07a", 13, "scanner 3, splits 6 + 2 guards, strip + its soundness, unescape")
 
 	if r.dataFld != nil && r.createNode != nil {
-		c07Unescape(c, r, callersIn)
+		c07Unescape(c, r, callersIn, levels, levelName)
 	}
-	c.Floor("R07b", 3, "2 stores of RawSegElem.Data, 1 text node from raw data")
+	c.Floor("R07b", 5, "at least 1 store of RawSegElem.Data, the 3 split levels feeding it, 1 text node from raw data")
 	if r.defFld != nil && len(r.fatal) > 0 && r.createNode != nil && r.dataFld != nil {
 		c07Missing(c, r, fns, callersIn)
 	}
@@ -440,59 +432,13 @@ func runC07(c *core.Ctx) {
 	c07NoSharedBuffers(c)
 }
 
-// c07LenGuard: the declaration field whose len() test (against 0) decides, on the nearest dominating If, whether the
-// block executes.
-func c07LenGuard(b *ssa.BasicBlock, res *a5Resolver, r *c07roles) string {
-	for x := b; x != nil && x.Idom() != nil; x = x.Idom() {
-		p := x.Idom()
-		ifi, ok := p.Instrs[len(p.Instrs)-1].(*ssa.If)
-		if !ok {
-			continue
-		}
-		bo, ok := ifi.Cond.(*ssa.BinOp)
-		if !ok {
-			continue
-		}
-		var lenArg ssa.Value
-		for _, side := range []ssa.Value{bo.X, bo.Y} {
-			if call, ok := side.(*ssa.Call); ok {
-				if bi, ok := call.Call.Value.(*ssa.Builtin); ok && bi.Name() == "len" {
-					lenArg = call.Call.Args[0]
-				}
-			}
-		}
-		if lenArg == nil {
-			continue
-		}
-		fl := res.Resolve(lenArg).Fields()
-		if len(fl) != 1 {
-			continue
-		}
-		// the block must be on the "non-zero length" side
-		nonZeroSucc, _, okT := a5LenTest(bo, func(v ssa.Value) bool {
-			call, ok := v.(*ssa.Call)
-			return ok && len(call.Call.Args) == 1 && call.Call.Args[0] == lenArg
-		})
-		if !okT || nonZeroSucc < 0 {
-			continue
-		}
-		side := p.Succs[nonZeroSucc]
-		if side == x || side.Dominates(x) {
-			if len(side.Preds) == 1 {
-				return fl[0]
-			}
-		}
-		// the split is on the zero-length side of this test, or not decided by it: keep looking upwards
-	}
-	return ""
-}
-
 // c07Strip checks the slice that drops the segment delimiter from the token.
-func c07Strip(c *core.Ctx, elemSplit *ssa.Call, callersIn func(*ssa.Function) []*ssa.Call, origin func(rule, key string, pos token.Pos, v ssa.Value, want string) bool, res *a5Resolver, eofAsDelim, flagsKnown bool) {
+func c07Strip(c *core.Ctx, elemSplit *ssa.Call, callersIn func(*ssa.Function) []*ssa.Call, into func(*ssa.Function) bool, origin func(rule, key string, pos token.Pos, v ssa.Value, want string) bool, res *a5Resolver, eofAsDelim, flagsKnown bool) {
 	key := core.FuncKey(elemSplit.Parent()) + " segment delimiter strip"
 	var strips []*ssa.Slice
 	seen := map[ssa.Value]bool{}
 	var walk func(v ssa.Value)
+	var results func(call *ssa.Call, idx int)
 	walk = func(v ssa.Value) {
 		if seen[v] {
 			return
@@ -530,6 +476,24 @@ func c07Strip(c *core.Ctx, elemSplit *ssa.Call, callersIn func(*ssa.Function) []
 						}
 					}
 				}
+			}
+		case *ssa.Call:
+			// the token is prepared by a helper of the package: what the helper returns
+			results(x, 0)
+		case *ssa.Extract:
+			if call, ok := x.Tuple.(*ssa.Call); ok {
+				results(call, x.Index)
+			}
+		}
+	}
+	results = func(call *ssa.Call, idx int) {
+		cf := call.Call.StaticCallee()
+		if cf == nil || cf.Blocks == nil || into == nil || !into(cf) {
+			return
+		}
+		for _, b := range cf.Blocks {
+			if rt, ok := b.Instrs[len(b.Instrs)-1].(*ssa.Return); ok && idx < len(rt.Results) {
+				walk(rt.Results[idx])
 			}
 		}
 	}
@@ -817,10 +781,29 @@ func c07IgnoreCRLF(c *core.Ctx, r *c07roles, res *a5Resolver, fns []*ssa.Functio
 }
 
 // c07Unescape: R07b.
-func c07Unescape(c *core.Ctx, r *c07roles, callersIn func(*ssa.Function) []*ssa.Call) {
+func c07Unescape(c *core.Ctx, r *c07roles, callersIn func(*ssa.Function) []*ssa.Call, levels []*ssa.Call, levelName []string) {
 	intoEdi := func(f *ssa.Function) bool { return core.FuncPkg(f) == r.edi }
 	isData := func(f *types.Var) bool { return f == r.dataFld }
 	marked := func(call *ssa.Call) bool { return c07IsUnescape(call) }
+	// (i') role coverage of the stores found under (i): they are the tokenizer's output. The pieces of every split level
+	// reach RawSegElem.Data as they are (not passing through a deeper split: the deeper levels are optional), through
+	// whichever store(s) and helpers the tokenizer uses. This is what makes the number of stores irrelevant.
+	isLevel := map[*ssa.Call]bool{}
+	for _, l := range levels {
+		isLevel[l] = true
+	}
+	fed := map[*ssa.Call]bool{}
+	var fedPos token.Pos
+	defer func() {
+		for i, l := range levels {
+			key := "edi " + levelName[i] + " split feeds RawSegElem.Data"
+			if fed[l] {
+				c.OK("R07b", key, fedPos, "the pieces of this split level are stored into RawSegElem.Data (directly when the deeper levels are not configured)")
+			} else {
+				c.Unknown("R07b", key, core.InstrPos(l), "no store of RawSegElem.Data takes its bytes from the pieces of this split level: the stores this rule judges are not the tokenizer's output")
+			}
+		}
+	}()
 	for _, f := range c.RepoFunctions() {
 		if core.IsCLIOrSample(core.FuncPkg(f)) {
 			continue
@@ -847,6 +830,22 @@ func c07Unescape(c *core.Ctx, r *c07roles, callersIn func(*ssa.Function) []*ssa.
 				c.Bad("R07b", key, w.Pos, "raw element data is unescaped in the tokenizer; it is unescaped again when the node is created")
 			default:
 				c.OK("R07b", key, w.Pos, "raw (escaped) bytes of the token, no unescape on any derivation path")
+			}
+			for _, l := range levels {
+				l := l
+				al := &a5Ancestry{DataArgs: func(call *ssa.Call) []ssa.Value {
+					if isLevel[call] && call != l {
+						return []ssa.Value{} // do not look through another split level
+					}
+					return c07DataArgs(call)
+				}, ParamReach: true, Callers: callersIn, Into: intoEdi}
+				al.Count(w.Val)
+				if al.Calls[l] && !fed[l] {
+					fed[l] = true
+					if !fedPos.IsValid() {
+						fedPos = w.Pos
+					}
+				}
 			}
 		}
 		// (ii) text nodes
